@@ -100,12 +100,22 @@ func (o *Optimizer) checkFunctionCalls(stmt Statement) error {
 					}
 				} else if aobj, have := GetAggrFunctionByName(fname); have {
 					if !aggrOK {
-						err = NewSyntaxError(fc.GetPos(), "Aggregate function %s is only allowed in select fields", aobj.Name)
+						err = NewSyntaxError(fc.GetPos(), "Aggregate function %s is only allowed in select fields, outside other function calls", aobj.Name)
 					} else if !aobj.VarArgs && len(fc.Args) != aobj.NumArgs {
 						err = NewSyntaxError(fc.GetPos(), "Function %s require %d arguments but got %d", aobj.Name, aobj.NumArgs, len(fc.Args))
 					}
 				} else {
 					err = NewSyntaxError(fc.GetPos(), "Cannot find function %s", fname)
+				}
+				if err == nil && aggrOK {
+					// The aggregate plan computes an aggregate function that a select
+					// field is made of, not one that sits inside another call
+					aggrOK = false
+					for _, arg := range fc.Args {
+						arg.Walk(walk)
+					}
+					aggrOK = true
+					return false
 				}
 			}
 			return err == nil
